@@ -536,10 +536,14 @@ class VM:
             a = self.stack.pop()
             b_num = to_number(b)
             a_num = to_number(a)
-            if b_num == 0:
+            if b_num == 0 or math.isnan(b_num) or math.isnan(a_num) or math.isinf(a_num):
                 self.stack.append(float("nan"))
+            elif isinstance(a_num, int) and isinstance(b_num, int):
+                # truncated remainder: sign of the dividend (host % takes the sign of the divisor)
+                r = abs(a_num) % abs(b_num)
+                self.stack.append((-r if r else -0.0) if a_num < 0 else r)
             else:
-                self.stack.append(a_num % b_num)
+                self.stack.append(math.fmod(a_num, b_num))
 
         elif op == OpCode.POW:
             b = self.stack.pop()
